@@ -10,7 +10,7 @@ THEOREMS = ['XmlDiffModel.C10_join_keeps_both_texts', 'XmlDiffModel.C09_insert_p
 PARTIAL = {"C10": 'proved at tree level, moves included, for structure, tags and texts (C10_reject_invariant; formatter without text tags and without use_replace, tree before finalize): whatever script the handlers accept, the rejected view of the working tree (nodes flagged inserted dropped, old tag restored from diff:rename, marked texts read with the delete wrappers opened and the insert wrappers dropped, attributes forgotten) never changes, so for a clean left document it is that document without its attributes; assumed along the run in that theorem: a node is renamed at most once, a text or tail is marked at most once and each consumed engine answer rejects to the current text (C16). For the scripts of the model differ with the engine model inside the formatter model (runFmtE, any diff_bisect behaviour, WS_TEXT normalisation only on texts that are already whitespace-normal, texts of at most 27000 characters) these are proved, not assumed (C10_differ_script_engine; any script whose rename / text / tail actions hit pairwise different nodes: C09_C10_engine_run): the handlers accept the script and the rejected view is the left document without its attributes. After finalize, wrappers as elements (C10_differ_script_output; general: C09_C10_finalize_reads): the reject-all projection Fin.rejFT of the tree format() hands to render - delete wrappers give text and tail to the text in front of them, insert wrappers the tail, elements flagged inserted go with the text region after them, diff:rename restores the tag, attributes forgotten - is the left document without its attributes, for every script of the model differ, engine included, hypotheses on the two documents only. NOT proved: the decoding of the diff:*-attr annotations (decided per run), text tags, use_replace, WS_TEXT normalisation of texts that are not whitespace-normal. Also proved: join keeps the reject-text (old-text), positions and addressing lemmas, and one text update end to end at text level - after undo_string (finalize) rejecting every wrapper in the output of _make_diff_tags spells the old text (C10_text_update_reject; texts free of private-use characters, no use_replace, any do_tree history). Decided per run by the reject-all projection of the real output compared with L (values of deleted attributes not recorded). Known finding X1 (text after a comment).'}
 LEAN_MODULES = ["XmlDiffModel.Props.C09", "XmlDiffModel.Props.C09E", "XmlDiffModel.Props.C09F", "XmlDiffModel.Props.C11"]
 SOURCES = ['formatting.XMLFormatter', 'formatting.PlaceholderMaker', 'main.diff_trees']
-RULE = "XML-formatter stream as C09 (U9, U9e, U9w, U9p as there); oracle: reject-all projection of the real output (drop inserted elements with the text region that follows, drop diff:insert wrappers, restore diff:delete wrappers and old-text, undo diff:rename and the diff:*-attr annotations) equals the left document with comments removed, up to the values of deleted attributes; attribute names / values free of ';' and ':'. U9 as C08."
+RULE = "XML-formatter stream as C09 (U9, U9e, U9w, U9p as there); oracle: reject-all projection of the real output (drop inserted elements with the text region that follows, drop diff:insert wrappers, restore diff:delete wrappers and old-text, undo diff:rename and the diff:*-attr annotations) equals the left document with comments removed, up to the values of deleted attributes; attribute names / values free of ';' and ':'; under pretty_print, where the comparison ignores white space, a white-space-only text inside mixed content must survive. U9 as C08."
 ASSUMPTIONS = [
     "U9: the character-level text diff of every text update (diff_main + diff_cleanupSemantic) is an input of the formatter model, recorded from the real engine; U9e: it is computed by the engine model inside the formatter model, only the split points of diff_bisect are recorded (the theorems hold for every bisect behaviour); the engine itself is the subject of C16",
     "documents without private-use characters; namespace-free documents in the model",
